@@ -9,9 +9,20 @@ Functions under contract (real source, re-read on every run):
                           inlined; `cmparr` taken by contract at its two call sites, the dict branch excluded by the universe
   pyg_base._sort:cmparr   whole body against its loop contract (first non-zero element comparison, else 0); the recursive
                           call of cmp uses cmp's own contract on elements of strictly smaller nesting depth
+  pyg_base._sort:_has_nan whole body against its recursive spec HASNAN (a NaN at some depth)
+  pyg_base._sort:sort     whole body, given the sorted() axiom (th_values.sorted_result): the `_has_nan` guard establishes the
+                          axiom's premise "Python's own < agrees with cmp wherever it is defined" (lemma sort.lemma.*, by
+                          structural induction, needs the tuple </== axioms of CPython); the fallback sorted(..., key=Cmp)
+                          executes the real Cmp.__init__ / Cmp.cmp / Cmp.__lt__ on a generic pair of elements
+  pyg_base._dictable:dictable.sort   body from `by = as_tuple(by)` to the return: (key, row number) pairs, sort() by contract,
+                          transposition, re-ordering of a generic column; the **byval branch is excluded; what the table is
+                          (len, self[by], items(), constructor) is assumed (C01)
 Structural induction on the nesting depth D: the laws are assumed for all values of depth < D (instances for the elements
 at the witness indices of cmparr's contract) and proved for depth <= D; the base case (scalars) needs no hypothesis.
 as_primitive is taken as the identity on this universe (assumed; its numpy / date normalisation is bounded-checked).
+sort's quantifier (lists of scalars None / int / finite float / NaN / str / datetime, or of equal-length tuples of them - no
+bools, no infinities) is generalised to lists of pairwise *shape-compatible* values (COMPAT), which is what dictable.sort
+hands to sort: ((key, ...), row number) pairs.
 """
 import ast
 import z3
@@ -589,6 +600,11 @@ def build(ctx):
         ctx.post('cmp.transitive.strict_when_one_step_is_strict', hy_tr + [R1 <= 0, R2 <= 0, Or(R1 < 0, R2 < 0)], R3 < 0, witness=wit3,
                  replay=rp('cmp.transitive'))
         ctx.post('cmp.transitive.zero_is_an_equivalence', hy_tr + [R1 == 0, R2 == 0], R3 == 0, witness=wit3, replay=rp('cmp.transitive'))
+        ctx.cover('cmp.antisymmetry_hypotheses_satisfiable.tuples', hy_as + [tag(x) == TUPLE_T, tag(y) == TUPLE_T, ln(x) == 2, ln(y) == 2, R1 == 1,
+                                                                           CMP(at(x, 0), at(y, 0)) == 0])
+        ctx.cover('cmp.transitivity_hypotheses_satisfiable.tuples', hy_tr + [R1 == -1, R2 == -1, tag(x) == TUPLE_T, tag(y) == TUPLE_T, tag(z) == TUPLE_T,
+                                                                             ln(x) == 2, ln(y) == 2, ln(z) == 2, CMP(at(x, 0), at(y, 0)) == 0])
+        ctx.cover('cmp.transitivity_hypotheses_satisfiable.mixed_scalars', hy_tr + [R1 == -1, R2 == -1, tag(x) == NONE_T, is_nan(y), tag(z) == STR_T])
         # scalar clauses of the statement
         ctx.post('cmp.zero_for_numerically_equal_int_and_float',
                  hy2 + [rel_xy(R1), tag(x) == INT_T, tag(y) == FLOAT_T, fk(y) == FIN, z3.ToReal(iv(x)) == rv(y)], R1 == 0,
@@ -672,7 +688,6 @@ def build(ctx):
             ob.witness = ob.witness or ws
             ob.meta.setdefault('replay', rp('sort'))
             ob.meta['search_hints'] = sort_hints
-        saved_meta = ctx.default_meta
         ctx.default_meta = dict(search_hints=sort_hints)
         ctx.absorb(ex)
         ctx.record_function(ms, 'sort', fs, ex.stmts_executed)
@@ -701,14 +716,16 @@ def build(ctx):
                      witness=ws, replay=rp('sort'))
             ctx.post('sort.%s.result_is_nondecreasing_under_cmp' % tagp, hy,
                      ForAll([p, q], Implies(And(0 <= p, p < q, q < n), CMP(at(R, p), at(R, q)) <= 0)), witness=ws, replay=rp('sort'))
+            ctx.cover('sort.%s.path_reachable' % tagp, hy + [ln(xs) == 2, at(xs, 0) != at(xs, 1)] + ([is_nan(at(xs, 0))] if how != 'native' else []))
         ctx.post('sort.never_raises', ex.facts + hy0, Not(Or(*bad)) if bad else BoolVal(True), kind='safety', witness=ws, replay=rp('sort'))
-        ctx.default_meta = saved_meta
         if nret < 1:
             raise OutOfSubset('sort has no returning path')
         ctx.cover('sort.pre_satisfiable.nan_and_mixed_types', hy0 + [ln(xs) == 3, is_nan(at(xs, 0)), tag(at(xs, 1)) == STR_T, tag(at(xs, 2)) == NONE_T])
         ctx.cover('sort.pre_satisfiable.tuples', hy0 + [ln(xs) == 2, tag(at(xs, 0)) == TUPLE_T, tag(at(xs, 1)) == TUPLE_T, ln(at(xs, 0)) == 2,
                                                         at(xs, 0) != at(xs, 1), is_nan(at(at(xs, 0), 1))])
+    base_meta = ctx.default_meta
     ctx.guarded('sort', sort_section)
+    ctx.default_meta = base_meta
 
     # ------------------------------------------------------------------ dictable.sort: stable permutation of the rows
     def table_section():
@@ -739,6 +756,7 @@ def build(ctx):
             ob.witness = ob.witness or wt
             ob.meta.setdefault('replay', rp('dictable.sort'))
             ob.meta['search_hints'] = t_hints
+        ctx.default_meta = dict(search_hints=t_hints)
         ctx.absorb(ex)
         ctx.record_function(md, 'dictable.sort', fd, ex.stmts_executed,
                             excluded=['**byval branch (value orders: dict(zip(vals, range)), d.get(row[k], len(d))): dict keys are outside the deductive '
@@ -822,6 +840,7 @@ def build(ctx):
         ctx.post('dictable.sort.idempotent.sorting_a_sorted_table_moves_no_row', [N >= 0, ge(SG), ge(SGI)] + bij + [inr(p)], SG(p) == p, kind='lemma')
         ctx.trust('induction schema over the integers (base and step of `an increasing map of [0,N) into itself is >= identity` are separate obligations)')
     ctx.guarded('dictable.sort', table_section)
+    ctx.default_meta = base_meta
 
     ctx.trust('induction schema over the nesting depth (finite, acyclic nesting): the step is discharged with the hypothesis instantiated at '
               'the witness indices of cmparr; the base case D = 0 is the same obligations on scalars')
